@@ -93,6 +93,32 @@ Theorem C03_source_invoke_is_model : forall (rg : RG) (rp : RP) sp k s,
 Proof. exact gen_invoke_step_is_model. Qed.
 Print Assumptions C03_source_invoke_is_model.
 
+(** ... and that restore itself ([Step.reset_context_counters], read from the source): every
+    counter of a loop decorator the caller carries is written back from the caller's own loop state
+    ([i] whatever the item's value — the test is on the foreach decorator, not on the item), and the
+    caller's call / switch config object is put back under its key.  Hypotheses: [a is b] implies
+    [a == b]; the method's own [assert call.original_config[1]]; the caller's loops are running. *)
+Theorem C03_source_counters_restore_is_model : forall sp k (same : val -> val -> bool) c s,
+  (forall a b, same a b = true -> a = b) ->
+  py_truth (c_orig c) = true ->
+  live sp k ->
+  gen_reset_context_counters sp k same (ORaise (RSig (SCall c))) s = (OOk, reset_counters sp k c s).
+Proof. exact gen_reset_context_counters_is_model. Qed.
+Print Assumptions C03_source_counters_restore_is_model.
+
+(** the hypotheses are met by a caller under while + foreach (falsy current item) + retry *)
+Example C03_restore_live :
+  let sp := mkstep "pypyr.steps.call" BCall (Some [(VStr "call", VStr "callee")])
+                   (Some (VList [VNone; VInt 0]))
+                   (Some (mkw (Some (VInt 2)) None (VInt 0) (VBool false))) None
+                   (VBool true) (VBool false) (VBool false) None (Some (1, 5)%Z) None in
+  let k := mkcnt (Some 1%Z) (Some VNone) None in
+  let c := mkcof [VStr "callee"] None None "call" (VStr "callee") in
+  live sp k /\ py_truth (c_orig c) = true /\
+  sget "i" (ctx (reset_counters sp k c
+       (mkst [(VStr "i", VStr "q")] [] [] [] 0%Z 0%Q))) = Some VNone.
+Proof. repeat split; try discriminate; intros H; try discriminate; now elim H. Qed.
+
 (** * Non-vacuity: caller under foreach + while; callee loops and wipes the counters *)
 Definition P (tag : string) (fe : option val) (inn : dict) (b : body) (nm : string) : step :=
   mkstep nm b (Some ((VStr "ptag", VStr tag) :: inn)) fe None None
